@@ -191,3 +191,125 @@ def nearest_unit(fwd):
 
 
 UNITS = [shift_unit(True), shift_unit(False), nearest_unit(True), nearest_unit(False)]
+
+
+# ------------------------------------------------------------------------------------------------ the ledger itself
+COMP = S('Comp', None)
+
+
+class LedgerPlugin:
+    """Python-level view of the ledger: `rows.append(ResourceUsageRow(...))`, row attribute access, and
+    `sum([item.units for item in rows if cond], 0)` proved equal to the sidecar's specification term by induction on the
+    construction of the ledger (base + step obligations; the induction schema for snoc-lists is the meta-rule)."""
+
+    def __init__(self, sum_specs):
+        self.sum_specs = sum_specs; self.nsum = 0
+
+    def ev_Attribute(self, eng, e, st):
+        if not isinstance(e.ctx, ast.Load): return NotImplemented
+        try:
+            s, o = eng.ev1(e.value, st)
+        except Unsupported:
+            return NotImplemented
+        if o.s == ROW:
+            acc = {'resource': (r_res, IR), 'date': (r_date, TIME), 'task': (r_task, TK), 'units': (r_units, REAL)}
+            if e.attr not in acc: raise Unsupported('row attribute ' + e.attr)
+            f, srt = acc[e.attr]
+            return [(s, V(f(o.e), srt))]
+        return NotImplemented
+
+    def ev_ListComp(self, eng, e, st):
+        if len(e.generators) != 1: return NotImplemented
+        g = e.generators[0]
+        s, src = eng.ev1(g.iter, st)
+        if src.s != Led: return NotImplemented
+        return [(s, V(('comp', src.e, e.elt, list(g.ifs), g.target.id), COMP))]
+
+    def call(self, eng, e, st):
+        f = e.func
+        if isinstance(f, ast.Name) and f.id == 'ResourceUsageRow' and len(e.args) == 4:
+            out = []
+            for s, vs in eng.ev_seq(e.args, st):
+                if isinstance(vs, Raise): out.append((s, vs)); continue
+                out.append((s, V(mkrow(vs[0].e, eng.as_sort(s, vs[1], TIME, 'safe/TypeError-None-date'), vs[2].e, eng.coerce(vs[3], REAL)), ROW)))
+            return out
+        if isinstance(f, ast.Attribute) and f.attr == 'append' and len(e.args) == 1:
+            tgt = f.value
+            if isinstance(tgt, ast.Attribute):
+                s, o = eng.ev1(tgt.value, st)
+                if o.s.is_ref and eng.classes.get(o.s.cls, {}).get(eng.mangle(tgt.attr)) == Led:
+                    s, x = eng.ev1(e.args[0], s)
+                    if x.s != ROW: raise Unsupported('append of a non-row to the ledger')
+                    key = o.s.cls + '.' + eng.mangle(tgt.attr); fld = eng.field(s, o.s.cls, eng.mangle(tgt.attr))
+                    s.oblige('safe/AttributeError-None', o.e != o.s.null, f'@{e.lineno}')
+                    nl = fresh('rows', Led); s.assume(nl == app(Select(fld, o.e), x.e))
+                    eng.write(s, key, Store(fld, o.e, nl))
+                    return [(s, V(None, NONE))]
+        if isinstance(f, ast.Name) and f.id == 'sum' and len(e.args) == 2:
+            s, c = eng.ev1(e.args[0], st)
+            if c.s != COMP: return NotImplemented
+            s, z = eng.ev1(e.args[1], s)
+            _, L, elt, ifs, var = c.e
+            k = self.nsum; self.nsum += 1
+            spec = self.sum_specs[k]
+            ctx = Ctx(eng, s, pre=eng.pre_state)
+            # induction: base
+            s.oblige(f'lemma/sum#{k}-is-spec/base', spec(ctx, nil) == eng.coerce(z, REAL), f'@{e.lineno}')
+            # induction: step for an arbitrary well-formed ledger Lq extended by an arbitrary row xq
+            Lq = fresh('Lq', Led); xq = fresh('xq', ROW)
+            s2 = s.fork(); s2.env = dict(s.env); s2.env[var] = V(xq, ROW)
+            s2.assume(wf(app(Lq, xq)))
+            conds = []
+            for cnd in ifs:
+                s2, cv = eng.ev1(cnd, s2); conds.append(eng.truth(s2, cv))
+            s2, ev_ = eng.ev1(elt, s2)
+            step = spec(ctx, app(Lq, xq)) == spec(ctx, Lq) + If(And(*conds) if conds else BoolVal(True), eng.coerce(ev_, REAL), 0)
+            s2.oblige(f'lemma/sum#{k}-is-spec/step', step, f'@{e.lineno}')
+            s.obs = s2.obs if s2.obs is not s.obs else s.obs
+            s.oblige(f'lemma/sum#{k}-is-spec/ledger-well-formed', wf(L), f'@{e.lineno}')
+            return [(s, V(spec(ctx, L), REAL))]
+        return NotImplemented
+
+
+def c_get_key(eng, st, recv, args, kws, node):
+    return [(st, V(midnight(eng.as_sort(st, args[0], TIME, 'safe/AttributeError-None')), TIME))]
+
+
+def c_res_reserve(eng, st, recv, args, kws, node):
+    """IResource.reserve(date, task, units): hook for subclasses, `pass` in the repository; interface assumption: it does
+    not touch the ledger or the tasks"""
+    return [(st, V(None, NONE))]
+
+
+def ledger_units():
+    def build_reserve():
+        rows = lambda c, which='cur': Select(c.fld('_ResourceUsage', 'rows', which), c['self'])
+        fc = {'sig': {'self': RU, 'resource': IR, 'date': TIME, 'task': TK, 'units': REAL},
+              'requires': [('nn', lambda c: And(c['self'] != RU.null, c['resource'] != IR.null))],
+              'ensures': [('C03/appends-exactly-one-day-normalised-row', lambda c: rows(c) == app(rows(c, 'pre'), mkrow(c['resource'], midnight(c['date']), c['task'], c['units']))),
+                          ('C03,C04/returns-the-units', lambda c: c.eng.coerce(c.result, REAL) == c['units'])]}
+        return Engine(F, '_ResourceUsage.reserve', {'_ResourceUsage._ResourceUsage__get_key': c_get_key, 'IResource.reserve': c_res_reserve}, SCHED_CLASSES, fc,
+                      plugins=[LedgerPlugin([])]), LEDGER_AX
+
+    def build_reserved():
+        rows = lambda c: Select(c.fld('_ResourceUsage', 'rows'), c['self'])
+        specs = [lambda c, L: tot(L, c['resource'], dayidx(c['date'])), lambda c, L: totT(L, c['resource'], dayidx(c['date']), c['task'])]
+        fc = {'sig': {'self': RU, 'resource': IR, 'date': TIME, 'task': TK},
+              'requires': [('nn', lambda c: c['self'] != RU.null), ('C03/ledger-rows-are-day-normalised', lambda c: wf(rows(c)))],
+              'ensures': [('C03/total-of-the-day-or-of-the-task-on-that-day',
+                           lambda c: c.eng.coerce(c.result, REAL) == If(c['task'] == TK.null, tot(rows(c), c['resource'], dayidx(c['date'])), totT(rows(c), c['resource'], dayidx(c['date']), c['task'])))]}
+        return Engine(F, '_ResourceUsage.reserved', {'_ResourceUsage._ResourceUsage__get_key': c_get_key}, SCHED_CLASSES, fc, plugins=[LedgerPlugin(specs)]), LEDGER_AX
+
+    def build_report_reserved():
+        rows = lambda c: Select(c.fld('ResourceUsageReport', '_ResourceUsageReport__rows'), c['self'])
+        specs = [lambda c, L: tot(L, c['resource'], dayidx(c['date']))]
+        fc = {'sig': {'self': RUR, 'resource': IR, 'date': TIME},
+              'requires': [('nn', lambda c: c['self'] != RUR.null), ('C03/ledger-rows-are-day-normalised', lambda c: wf(rows(c))),
+                           ('queried-date-is-a-day', lambda c: c['date'] == midnight(c['date']))],
+              'ensures': [('C03/report-total-agrees-with-its-rows', lambda c: c.eng.coerce(c.result, REAL) == tot(rows(c), c['resource'], dayidx(c['date'])))]}
+        return Engine(F, 'ResourceUsageReport.reserved', {}, SCHED_CLASSES, fc, plugins=[LedgerPlugin(specs)]), LEDGER_AX
+    return [Unit('_ResourceUsage.reserve', F, build_reserve, ['C03', 'C04']), Unit('_ResourceUsage.reserved', F, build_reserved, ['C03']),
+            Unit('ResourceUsageReport.reserved', F, build_report_reserved, ['C03'])]
+
+
+UNITS += ledger_units()
